@@ -323,7 +323,9 @@ func RunChild(sc *Scenario) *Result {
 	modules.VerifHook = c.hook
 
 	reports := make(chan *modules.ModuleError, 256)
-	modules.SetErrorReportingChannel(reports)
+	if !sc.NoReports {
+		modules.SetErrorReportingChannel(reports)
+	}
 	var repWg sync.WaitGroup
 	repWg.Add(1)
 	go func() {
